@@ -63,15 +63,74 @@ def paren(e):
     return ("b", e[1], e[2], l, r)
 
 
-def text(e):
+def flat_tokens(e):
     k = e[0]
     if k in "ad":
-        return e[1]
+        return [e[1]]
     if k == "p":
-        return "(" + text(e[1]) + ")"
+        return ["("] + flat_tokens(e[1]) + [")"]
     if k == "u":
-        return e[2] + " " + text(e[3])
-    return text(e[3]) + " " + e[2] + " " + text(e[4])
+        return [e[2]] + flat_tokens(e[3])
+    return flat_tokens(e[3]) + [e[2]] + flat_tokens(e[4])
+
+
+def _wordy(ch):
+    return ch.isalnum() or ch in "_.'\""
+
+
+def _isnum(t):
+    return t[0].isdigit() or (t[0] == "." and len(t) > 1 and t[1].isdigit())
+
+
+def _need_blank(prev, t):
+    """would writing the two tokens next to each other change the token boundaries?"""
+    a, b = prev[-1], t[0]
+    if (a.isalnum() or a == "_") and (b.isalnum() or b == "_"):
+        return True
+    if _isnum(prev) and b == ".":
+        return True                      # 1.eq.2 / 1..5
+    if a == "." and (_isnum(t) or b == "."):
+        return True                      # .eq..5 / .and..not.  (kept apart: not what is being tested)
+    if a in "'\"" and b in "'\"":
+        return True
+    return (a + b) in ("**", "//", "/=", "<=", ">=", "==", "=>", "(/", "/)")
+
+
+def text(e, style=0, rng=None):
+    """style 0: one blank between tokens; 1: no blanks except where two tokens would merge; 2: as 0 with
+    upper-case operators; 3: random blanks (0-2) between tokens, blanks inside dotted operators"""
+    toks = flat_tokens(e)
+    if style == 0:
+        return _join_groups(toks, " ")
+    out = []
+    for i, t in enumerate(toks):
+        if style == 2 and t.startswith(".") and t.endswith(".") and len(t) > 2:
+            t = t.upper()
+        if style == 3 and rng is not None and t.startswith(".") and t.endswith(".") and len(t) > 2 and rng.random() < 0.3:
+            t = ". " + t[1:-1] + " ."
+        if i:
+            prev = out[-1]
+            need = _need_blank(prev, t)
+            if style == 1:
+                sep = " " if need else ""
+            elif style == 2:
+                sep = " " if not (prev == "(" or t == ")") else ""
+            else:
+                sep = " " * (rng.randrange(0, 3) if rng else 1)
+                if need and not sep:
+                    sep = " "
+            out.append(sep)
+        out.append(t)
+    return "".join(out)
+
+
+def _join_groups(toks, sep):
+    out = []
+    for i, t in enumerate(toks):
+        if i and not (toks[i - 1] == "(" or t == ")"):
+            out.append(sep)
+        out.append(t)
+    return "".join(out)
 
 
 class Interner:
@@ -255,12 +314,12 @@ def random_shape(rng, depth):
     return ("b", rng.choice(BIN), random_shape(rng, depth - 1), random_shape(rng, depth - 1))
 
 
-def compare(e, model):
+def compare(e, model, style=0, rng=None):
     """e: a parenthesised (conforming) tree.  Returns dict(model=..., real=..., expected=..., text=...)"""
     I = Interner()
     exp = bracketed(e, I)
     m = model.run(tokens(e, I))
-    txt = text(e)
+    txt = text(e, style, rng)
     kind, tree = real_parse(txt)
     r = real_bracketed(tree, I) if kind == "tree" else ("N" if kind == "nomatch" else kind)
     return dict(model=m, real=r, expected=exp, text=txt, ok_side=defop_ok(e))
